@@ -140,15 +140,29 @@ class C08(Prop):
             b = [None, a[1] + a[2] // 1000 * 1000 + k * DAY + delta, rng.choice([0, U, rng.randint(0, 2 * DAY)]), lab(rng.choice("AAB"))]
             out.append(("day-gap-merge", {"k": "merge", "pt": pt, "a": a, "b": b}))
             out.append(("day-gap-reduce", {"k": "reduce", "pt": pt, "l": [a, b, [None, b[1] + b[2] // 1000 * 1000 + rng.choice([0, 1000, DAY]), U, b[3]]]}))
+        # heartbeats stamped with aware datetimes of a zone that is at UTC+0 in winter, around the night its clocks go forward:
+        # an event is an interval of absolute time whatever zone its instant was given in
+        from ..common import DST_SPRING
+
+        for zone, ls in DST_SPRING:
+            for back in (600, 1800, 3000):
+                for dur in (3600, 7200, 2 * 3600 + 1800):
+                    a = [None, (ls - back) * 1_000_000, dur * 1_000_000, lab("A")]
+                    for where in (dur - 3000, dur - 1, dur, dur + 1, dur + 3):
+                        if where < 0:
+                            continue
+                        b = [None, a[1] + where * 1_000_000, 1_000_000, lab("A")]
+                        out.append(("dst-zone-merge", {"k": "merge", "pt": 2, "a": a, "b": b, "tz": zone}))
+                        out.append(("dst-zone-reduce", {"k": "reduce", "pt": 2, "l": [a, b, [None, b[1] + 2_000_000, 0, lab("A")]], "tz": zone}))
         return out
 
     def impl(self, case):
         from aw_transform.heartbeats import heartbeat_merge, heartbeat_reduce
 
         if case["k"] == "merge":
-            r = heartbeat_merge(mk_event(case["a"]), mk_event(case["b"]), case["pt"])
+            r = heartbeat_merge(mk_event(case["a"], case.get("tz", 0)), mk_event(case["b"], case.get("tz", 0)), case["pt"])
             return None if r is None else ev_tuple(r)
-        evs = [mk_event(e) for e in case["l"]]
+        evs = [mk_event(e, case.get("tz", 0)) for e in case["l"]]
         r = heartbeat_reduce(evs, case["pt"])
         out = [ev_tuple(e) for e in r]
         again = heartbeat_reduce([mk_event(e) for e in out], case["pt"])
